@@ -476,6 +476,49 @@ def table(ctx, R):
     R.check(len(tbl.keys) >= 10, "C19.TABLE.inventory", "accent entries: %d" % len(tbl.keys), where(f), "", "accent table shrank to %d entries" % len(tbl.keys), nontrivial=False)
 
 
+def _bindings(f, name):
+    """Value expressions bound to local `name` in f (assignments, walrus); None entries for bindings without a value
+    expression (loop targets, parameters are reported separately)."""
+    out = []
+    for nd in walk_local(f.node):
+        if isinstance(nd, ast.Assign):
+            for t in nd.targets:
+                if isinstance(t, ast.Name) and t.id == name:
+                    out.append(nd.value)
+                elif any(isinstance(x, ast.Name) and x.id == name and isinstance(x.ctx, ast.Store) for x in ast.walk(t)):
+                    out.append(None)
+        elif isinstance(nd, ast.NamedExpr) and isinstance(nd.target, ast.Name) and nd.target.id == name:
+            out.append(nd.value)
+        elif isinstance(nd, ast.AugAssign) and isinstance(nd.target, ast.Name) and nd.target.id == name:
+            out.append(None)
+        elif isinstance(nd, (ast.For, ast.comprehension)) and any(isinstance(x, ast.Name) and x.id == name for x in ast.walk(nd.target)):
+            out.append(None)
+    return out
+
+
+def _as_given(f, e, depth=0):
+    """(ok, source text): the expression is the text as given - a name / attribute / subscript chain, possibly through
+    locals that are bound once to such a chain; any call or operator on the way means the text was transformed."""
+    if isinstance(e, ast.NamedExpr):
+        return _as_given(f, e.value, depth)
+    if isinstance(e, (ast.Attribute, ast.Subscript)):
+        ok, src = _as_given(f, e.value, depth)
+        return ok, ntext(e) if not isinstance(e.value, ast.Name) else "%s%s" % (src, ntext(e)[len(ntext(e.value)):])
+    if isinstance(e, ast.Name):
+        if f is None or f.is_lambda or depth > 3:
+            return True, e.id
+        bs = _bindings(f, e.id)
+        if e.id in f.params:
+            # a parameter: must not be rebound to a transformed value
+            bad = [b for b in bs if b is not None and not _as_given(f, b, depth + 1)[0]]
+            return (not bad), e.id
+        if len(bs) == 1 and bs[0] is not None:
+            return _as_given(f, bs[0], depth + 1)
+        # loop targets and other value-less bindings are sources themselves
+        return all(b is None or _as_given(f, b, depth + 1)[0] for b in bs), e.id
+    return False, ntext(e)[:40]
+
+
 @rule("C19.USE")
 def use(ctx, R):
     P = ctx.P
@@ -487,16 +530,32 @@ def use(ctx, R):
                 a = c.args[0] if c.args else None
                 nested = isinstance(a, ast.Call) and [g.qual for g, _ in ctx.types.resolve(a)] == [U]
                 R.check(a is not None and not nested, "C19.USE", "%s|%s" % (f.qual, ntext(c)[:40]), where(f, c), "applied once", "`%s` applies uni2tex twice (backslashes of the first pass are not idempotent input)" % ntext(c)[:60])
+                if a is not None and not nested:
+                    g_ = f
+                    while g_ is not None and g_.is_lambda:
+                        g_ = g_.parent
+                    ok, src = _as_given(g_, a)
+                    R.check(ok, "C19.USE", "%s|%s as given" % (f.qual, ntext(c)[:40]), where(f, c), "uni2tex receives the text as given (%s)" % src, "`%s`: the text is transformed (%s) before it reaches uni2tex - stripping, normalising or re-joining changes what is typeset" % (ntext(c)[:60], src))
     f = P.func("timeline.TimelineTex.add_header_text")
-    cs = [c for c in calls_in(f.node) if ntext(c.func) == "uni2tex"]
-    ok = len(cs) == 1 and ntext(cs[0].args[0]) == "node.data.text"
-    R.check(ok, "C19.USE", f.qual, where(f), "\\def\\text.. = uni2tex(node.data.text)", "TeX label macros are not defined as uni2tex(node.data.text)")
+    cs = [c for c in calls_in(f.node) if [g.qual for g, _ in ctx.types.resolve(c)] == [U]]
+    ok = len(cs) == 1 and bool(cs[0].args) and _as_given(f, cs[0].args[0])[1].endswith(".data.text")
+    R.check(ok, "C19.USE", f.qual, where(f), "\\def\\text.. = uni2tex(node.data.text)", "TeX label macros are not defined as uni2tex(<node>.data.text)")
     g = P.func("tex.get_latex_fontdoc")
     kws = {}
     for c in calls_in(g.node):
         for k in c.keywords:
-            kws[k.arg] = ntext(k.value)
-    R.check(kws.get("text") == "uni2tex(text)" and kws.get("preamble") == "uni2tex(preamble)", "C19.USE", g.qual, where(g), "text and preamble pass through uni2tex", "get_latex_fontdoc does not pass text and preamble through uni2tex exactly once: %s" % kws)
+            if isinstance(k.value, ast.Call) and [x.qual for x, _ in ctx.types.resolve(k.value)] == [U] and k.value.args:
+                kws[k.arg] = _as_given(g, k.value.args[0])
+            elif k.arg in ("text", "preamble"):
+                kws[k.arg] = (False, ntext(k.value)[:40])
+    # also: locals formatted into the document
+    for nm in ("text", "preamble"):
+        if nm not in kws:
+            for c in calls_in(g.node):
+                if [x.qual for x, _ in ctx.types.resolve(c)] == [U] and c.args and _as_given(g, c.args[0])[1] == nm:
+                    kws[nm] = _as_given(g, c.args[0])
+    okk = all(nm in kws and kws[nm][0] and kws[nm][1] == nm for nm in ("text", "preamble"))
+    R.check(okk, "C19.USE", g.qual, where(g), "text and preamble pass through uni2tex as given", "get_latex_fontdoc does not pass text and preamble, as given, through uni2tex exactly once: %s" % kws)
     R.check(n >= 3, "C19.USE.inventory", "uni2tex call sites: %d" % n, "", "", "", nontrivial=False)
 
 
